@@ -1050,6 +1050,11 @@ func (f *frame) applyContract(at ssa.Instruction, ct *Contract, args []T, st *St
 	}
 	for _, list := range [][]*SpecExpr{ct.Ensures, ct.Summary} {
 		for _, en := range list {
+			if mentionsCallGhost(en.Expr) {
+				// called()/callcount()/lastresult()... speak about the calls the CALLEE made while it was verified; at a
+				// call site the same names denote the caller's own ghosts, so such a clause is not exported
+				continue
+			}
 			t, err := penv.evalBool(en)
 			if err != nil {
 				e.note("ensures eval: " + err.Error())
@@ -1059,6 +1064,21 @@ func (f *frame) applyContract(at ssa.Instruction, ct *Contract, args []T, st *St
 		}
 	}
 	return rs
+}
+
+var callGhostFns = map[string]bool{"called": true, "callcount": true, "lastresult": true, "calledwith": true, "lastbytes": true, "visited": true, "visitedset": true}
+
+func mentionsCallGhost(x ast.Expr) bool {
+	hit := false
+	ast.Inspect(x, func(n ast.Node) bool {
+		if c, ok := n.(*ast.CallExpr); ok {
+			if id, ok := c.Fun.(*ast.Ident); ok && callGhostFns[id.Name] {
+				hit = true
+			}
+		}
+		return !hit
+	})
+	return hit
 }
 
 // calleeInRootPkg: may the callee (or an implementation of the interface method) live in the root's package?
@@ -1243,15 +1263,15 @@ func (f *frame) havocPattern(st *State, pat string, ct *Contract, env *specEnv) 
 				t = dt
 			}
 		} else if _, isI := t.Underlying().(*types.Interface); isI {
-			// unknown dynamic type: everything may change
-			e.havocChans = true
-			e.havocClass(st, 0)
-			e.havocChans = false
-			e.havocClass(st, 1)
+			// unknown dynamic type (a content template obtained from a round): a foreign callee without further
+			// knowledge -- everything outside the root package's own objects may change (A-OWN)
+			f.havocOutside(st, nil, nil, false)
 			return
 		}
 		keys := map[string]bool{}
 		f.collectStructKeys(t, keys, map[types.Type]bool{})
+		reachHeaps := map[string]bool{}
+		f.collectReachHeaps(t, reachHeaps, map[types.Type]bool{})
 		var names []string
 		for n := range e.heapSort {
 			names = append(names, n)
@@ -1259,7 +1279,7 @@ func (f *frame) havocPattern(st *State, pat string, ct *Contract, env *specEnv) 
 		sort.Strings(names)
 		for _, n := range names {
 			switch {
-			case strings.HasPrefix(n, "E_"), strings.HasPrefix(n, "MD_"), strings.HasPrefix(n, "MV_"), strings.HasPrefix(n, "P_"):
+			case reachHeaps[n]:
 				e.havoc(st, n)
 			case n == "GV_natval" || n == "GV_ptval" || n == "GV_scval" || n == "GV_ctval":
 				e.havoc(st, n)
@@ -1741,6 +1761,43 @@ func (f *frame) collectStructKeys(t types.Type, out map[string]bool, seen map[ty
 		out[f.e.structKey(t)] = true
 		for i := 0; i < u.NumFields(); i++ {
 			f.collectStructKeys(u.Field(i).Type(), out, seen)
+		}
+	}
+}
+
+// collectReachHeaps: the element, map and primitive-cell heaps of the slice, map and pointer types reachable from t.
+func (f *frame) collectReachHeaps(t types.Type, out map[string]bool, seen map[types.Type]bool) {
+	if seen[t] {
+		return
+	}
+	seen[t] = true
+	switch u := t.Underlying().(type) {
+	case *types.Pointer:
+		if _, isS := u.Elem().Underlying().(*types.Struct); !isS {
+			srt := f.e.sortOf(u.Elem())
+			out["P_"+sanitize(srt)] = true
+			if at, ok := u.Elem().Underlying().(*types.Array); ok {
+				if h, _ := f.elemHeap(at.Elem()); h != "" {
+					out[h] = true
+				}
+			}
+		}
+		f.collectReachHeaps(u.Elem(), out, seen)
+	case *types.Slice:
+		if h, _ := f.elemHeap(u.Elem()); h != "" {
+			out[h] = true
+		}
+		f.collectReachHeaps(u.Elem(), out, seen)
+	case *types.Array:
+		f.collectReachHeaps(u.Elem(), out, seen)
+	case *types.Map:
+		d, _, v, _ := f.mapHeaps(u)
+		out[d], out[v] = true, true
+		f.collectReachHeaps(u.Key(), out, seen)
+		f.collectReachHeaps(u.Elem(), out, seen)
+	case *types.Struct:
+		for i := 0; i < u.NumFields(); i++ {
+			f.collectReachHeaps(u.Field(i).Type(), out, seen)
 		}
 	}
 }
